@@ -185,6 +185,9 @@ def install(ip, units):
         q = _q(vt, units.parse(unit.v), _ityp(v))
         if getattr(v, 'maybe_int', False):
             q.attrs['wraps_argument'] = True     # pint wraps the caller's array without copying it
+        if isinstance(v, (Arr, View)):
+            q.attrs['buf'] = v.base if isinstance(v, View) else v     # the Quantity wraps this very array (no copy)
+            q.attrs['buf_t'] = q.attrs['buf'].t
         return q
     ip.natives[('ureg', 'Quantity')] = quantity
 
@@ -417,8 +420,10 @@ def rule_conversions(ctx, rule='R17.d'):
             if not (isinstance(res, Obj) and res.cls == 'Quantity'):
                 ctx.violation(rule, construct, 'not-a-quantity', '%s: returns %r' % (tag, res), m.loc())
                 continue
-            const_units = [k for k in res.attrs['u'] if k in CONSTANT_UNITS]
-            if const_units or not res.attrs.get('normalised'):
+            # a quantity expressed in plain units only carries its number as the magnitude, whether it came out of .to() or
+            # was wrapped directly (Quantity(number, 'mol/L')); constants and the converter's own dc/mc/ec are *units* to pint
+            const_units = [k for k in res.attrs['u'] if k in CONSTANT_UNITS or k in units.custom]
+            if const_units:
                 ctx.violation('R17.n', construct, 'unnormalised',
                               '%s: the returned quantity is not the result of a final .to(<plain unit>): its unit is %s, so its '
                               'magnitude (%s) is not the textbook value (pint keeps %s as a *unit*; the number appears only after '
@@ -459,12 +464,31 @@ def rule_call_history(ctx, rule='R17.h'):
     def run(meth, before, preset):
         ip, units, o = make_converter(ctx.prog)
         ip.preset = list(preset)
+        if before == '<same array object>':
+            # the caller converts an array, changes its contents in place (k *= 2, rho[:] = ...) and converts the very
+            # same array object again: the second result is that of the current contents
+            rest = args_for(ip, meth, '')[1:]
+            ip.declare('x_first', 'curve')
+            ip.declare('x', 'curve')
+            a = Arr(N.sym('x_first'), 'argument', ip)
+            r1 = ip.call(ip.find_method(o, meth), [a] + rest, {})
+            a.t = N.sym('x')
+            res = ip.call(ip.find_method(o, meth), [a] + rest, {})
+            b1 = r1.attrs.get('buf') if isinstance(r1, Obj) else None
+            if b1 is not None and b1 is not a:
+                b2 = res.attrs.get('buf') if isinstance(res, Obj) else None
+                if b1 is b2 or (not P.is_pw(b1.t) and not P.is_pw(r1.attrs['buf_t']) and not b1.t.equals(r1.attrs['buf_t'])):
+                    return ip, ('ALIAS', 'the quantity returned by the first call wraps an array kept on the converter (%s): the '
+                                'second call on an array of the same shape overwrites the first result' % (b1.origin or 'a scratch buffer'), ())
+            return ip, res
         if before is not None:
             ip.call(ip.find_method(o, before), args_for(ip, before, '_first'), {})
         res = ip.call(ip.find_method(o, meth), args_for(ip, meth, ''), {})
         return ip, res
 
     def norm(res):
+        if isinstance(res, tuple) and res and res[0] == 'ALIAS':
+            return res
         if isinstance(res, Obj) and res.cls == 'Quantity':
             return ('Q', res.attrs['m'], tuple(sorted(res.attrs['u'].items())))
         if isinstance(res, Num):
@@ -481,16 +505,20 @@ def rule_call_history(ctx, rule='R17.h'):
             ctx.undecided(rule, construct, 'fresh call: %s' % e, m.loc())
             continue
         bad, und = [], []
-        for before in present:
+        for before in present + ['<same array object>']:
             try:
                 ws = [norm(r) for d, i, r in explore(lambda preset: run(meth, before, preset)) if i is not None]
             except (Unsupported, Raised) as e:
                 und.append('after %s: %s' % (before, e))
                 continue
             for k_, mt, u in ws:
+                if k_ == 'ALIAS':
+                    bad.append(mt)
+                    continue
                 if not any(k_ == k2 and u == u2 and not P.compare(mt, m2)[0] for k2, m2, u2 in fresh):
-                    bad.append('after %s(other arguments) the result is %s %s where a fresh converter gives %s' % (
-                        before, P.show(mt), dict(u), P.show(fresh[0][1]) if fresh else '?'))
+                    bad.append('after %s the result is %s %s where a fresh converter gives %s' % (
+                        'the same array object was converted with other contents' if before.startswith('<') else
+                        before + '(other arguments)', P.show(mt), dict(u), P.show(fresh[0][1]) if fresh else '?'))
         if bad:
             n += 1
             ctx.violation(rule, construct, 'call-history', '; '.join(bad[:2]), m.loc())
